@@ -366,6 +366,39 @@ def magic_lookahead(ck, P, cfg):
               "trailing garbage or plain data" % need, where(f))
 
 
+def reposition_reset(ck, P, cfg):
+    """A successful reposition of the file descriptor (the lseek of gzseek64's plain-file path) discards everything the
+    read side had buffered: on every path from the successful lseek to the return, have = 0, eof = false, past = false and
+    seek = false are stored - unconditionally, because the descriptor moved even for a zero or forward offset."""
+    R = "SIB/reposition-reset"
+    fn = P.fn(G + "gzseek64")
+    if not ck.anchor("fn gz::gzseek64 (%s)" % cfg, fn):
+        return
+    ck.use_fn(fn)
+    seeks = fn.live_calls(r"lseek64$|lseek$")
+    if not ck.anchor("lseek in gzseek64 (%s)" % cfg, len(seeks) == 1, where(fn)):
+        return
+    c = seeks[0]
+    rets = [b for b, k in fn.exits() if k == "return"]
+
+    def failed_edge(b, lab, tb):
+        if lab is None or lab[0] == "const":
+            return False
+        for a in fn.edge_atoms(b, lab):
+            s_ = sig.sig(a, fn)
+            if s_.rel == "Eq" and -1 in s_.consts and any("lseek" in k for k in s_.calls):
+                return True
+        return False
+
+    for field in ("have", "eof", "past", "seek"):
+        ws = {bi for bi, fp, root, rv, st in fn.field_writes() if fp[-1] == field and "stream" not in fp and fn.const_of(rv) == 0}
+        leak = not ws or flow.reaches_avoiding(fn, [c.target], rets, cut_blocks=ws, cut_edges=failed_edge)
+        ck.decide(not leak, R, "gzseek64:%s@%s" % (field, cfg), "cleared on every path after the successful lseek",
+                  "after gzseek64 moved the file descriptor it can return without clearing `%s`: stale read-side state survives the "
+                  "reposition (e.g. a latched end-of-file makes every following read return 0 although gztell is mid-file)" % field,
+                  where(fn, c.line))
+
+
 def _admission_subset(ck, P, cfg):
     global READ_ENTRIES
     re_ = READ_ENTRIES
@@ -421,4 +454,5 @@ def run(ck):
         gz_zero_precondition(ck, P, cfg)
         gz_cursor(ck, P, cfg)
         magic_lookahead(ck, P, cfg)
+        reposition_reset(ck, P, cfg)
     ck.assumptions += ["rustc MIR", "effect vocabulary and exception list in rules/props/c17.py", "K1 and K2 (gz feature)"]
